@@ -47,10 +47,11 @@ type Event struct {
 	Stmt   int64
 	Query  string
 	Args   []driver.NamedValue
-	CtxVal interface{} // ctx.Value(Recorder.CtxKey)
-	CtxErr error       // ctx.Err() at call time
-	Err    error       // result of the call (filled after the call)
-	Inject bool        // the error was injected
+	CtxVal interface{}     // ctx.Value(Recorder.CtxKey)
+	CtxErr error           // ctx.Err() at call time
+	Ctx    context.Context // the context object the call received (to ask Done/Err/Deadline later)
+	Err    error           // result of the call (filled after the call)
+	Inject bool            // the error was injected
 }
 
 func (e Event) String() string {
@@ -293,6 +294,7 @@ func (c *conn) ev(ctx context.Context, k Kind, q string, args []driver.NamedValu
 			e.CtxVal = ctx.Value(c.rec.CtxKey)
 		}
 		e.CtxErr = ctx.Err()
+		e.Ctx = ctx
 	}
 	return e
 }
